@@ -223,3 +223,54 @@ package coordinator
 //@   ensures in_list: result != nil ==> is_elem_of(result, l.items)
 //@   ensures contains: result != nil ==> contains_t(result, t)
 //@   ensures sound: result != nil ==> designates(result, t)
+
+// Per-owner goroutine body (C03.2). The store, the shard writer and hinted handoff are abstracted:
+// every call returns an arbitrary result. Ghosts record what the body did.
+// Environment of the points writer (fields of unnamed interface type): any result, no write to the
+// points writer's own state or to the request (assumption).
+//@ func (iface).NodeID
+//@   assumed
+//@   modifies nothing
+//@ func (iface).Empty
+//@   assumed
+//@   modifies nothing
+//@ func (iface).WriteShard
+//@   assumed
+//@   modifies nothing
+//@ func (iface).CreateShard
+//@   assumed
+//@   modifies nothing
+//@ func (iface).WriteToShard
+//@   assumed
+//@   modifies nothing
+
+//@ func (*PointsWriter).writeToShardWithContext$2
+//@   props C03
+//@   dynamic_calls_modify_nothing
+//@   requires w != nil && w.stats != nil && w.Logger != nil
+//@   requires env: w.MetaClient != nil && w.HintedHandoff != nil && w.ShardWriter != nil && w.TSDBStore != nil
+//@   ghost sends int = 0
+//@   ghost sentok bool = false
+//@   ghost sentnonnil bool = true
+//@   ghost hhcalls int = 0
+//@   ghost hhok bool = false
+//@   ghost nonempty bool = false
+//@   ghost directfail bool = false
+//@   ghost retry bool = false
+//@   at after send#*: ghost sends = sends + 1
+//@   at after send#*: ghost sentok = sendval.Err == nil
+//@   at after send#*: ghost sentnonnil = sentnonnil && sendval != nil
+//@   at after Empty#1: ghost nonempty = !callresult
+//@   at after WriteShard#1: ghost hhcalls = hhcalls + 1
+//@   at after WriteShard#1: ghost hhok = callresult == nil
+//@   at after WriteShard#2: ghost directfail = callresult != nil
+//@   at after hh.IsRetryable#1: ghost retry = callresult
+//@   at after WriteShard#3: ghost hhcalls = hhcalls + 1
+//@   at after WriteShard#3: ghost hhok = callresult == nil
+//@   ensures one_result: sends == 1
+//@   ensures msg_non_nil: sentnonnil
+//@   ensures hh_at_most_once: hhcalls <= 1
+//@   ensures queued_behind_is_offered: nonempty ==> hhcalls == 1
+//@   ensures retryable_failure_is_offered: directfail && retry ==> hhcalls == 1
+//@   ensures refused_handoff_is_an_error: hhcalls == 1 && !hhok ==> !sentok
+//@   ensures any_counts_queued: consistency == models.ConsistencyLevelAny && hhcalls == 1 && hhok ==> sentok
